@@ -21,6 +21,7 @@ RULE = ("every command method x EVERY subset of its optional arguments x value c
 ASSUMPTIONS = [
     "the convention table is written from api.proto (which has_* flags exist is read from the .proto text) and the statement, not from client.py",
     "float fields are compared after float32 rounding by the protobuf runtime on both sides",
+    "arguments supplied by position: the positional parameter order of the command methods is the one published at the pinned commit (table POSITIONAL)",
     "engine S doubles as in C05",
 ]
 BUDGET_S = {"quick": 300, "thorough": 1800}
